@@ -31,6 +31,7 @@ class ConveyorOracle:
         self.narrow = []          # [start, end] stall intervals, narrow reading
         self.wide = []
         self._n_open = None
+        self._n_open_step = None
         self._w_open = None
         self.puts_in_stall = 0
         self.same_instant_put_get = 0
@@ -70,6 +71,8 @@ class ConveyorOracle:
         wid = n_ready > 0
         if nar and self._n_open is None:
             self._n_open = now
+            self.mon.tick += 1
+            self._n_open_step = self.mon.tick
         elif not nar and self._n_open is not None:
             if now > self._n_open:
                 self.narrow.append((self._n_open, now))
@@ -144,7 +147,12 @@ class ConveyorOracle:
         if not self.acc:
             g = ir.tok_grant_t if ir.tok_grant_t is not None else now
             during = None
+            gs = ir.tok_grant_step
             if self._n_open is not None and g > self._n_open + self.tol(g):
+                during = self._n_open
+            elif self._n_open is not None and abs(g - self._n_open) <= self.tol(g) and gs is not None and self._n_open_step is not None \
+                    and gs > self._n_open_step:
+                # same instant, but the head had already landed unclaimed when the space was granted
                 during = self._n_open
             else:
                 for a, b in self.narrow[-6:]:
